@@ -140,6 +140,36 @@ let handle kind a =
                   | QOk l -> Buffer.add_string b (offs l))
              | _ -> ()) (split_on ';' a.(6));
            Some (Buffer.contents b))
+  | "bamb" ->
+      (* byte level: the file's frames, the header length, chunk lists run one after the other on
+         one reader; see harness/src/shared/c04_bytes.rs *)
+      let hl = n_of_dec a.(0) in
+      let frames = if a.(2) = "_" then [] else
+        List.map (fun p -> match split_on '.' p with
+          | [c; d] -> { csize = n_of_dec c; fdata = bytes_of_hex d }
+          | _ -> failwith "frame") (split_on ',' a.(2)) in
+      let qs = List.map (fun q -> if q = "_" then [] else
+        List.map (fun p -> match split_on ':' p with
+          | [x; y] -> (n_of_dec x, n_of_dec y) | _ -> failwith "chunk") (split_on '/' q)) (split_on ';' a.(3)) in
+      let hash b = List.fold_left (fun h x -> mix h (int_of_n x)) 0 b in
+      let desc b = Printf.sprintf "%d-%d" (List.length b) (hash b) in
+      let err e = match e with
+        | Err0 UnexpectedEof0 -> "Err:UnexpectedEof" | Err0 InvalidData0 -> "Err:InvalidData"
+        | Err0 InvalidInput0 -> "Err:InvalidInput" | Panic0 -> "Panic" | OutOfFuel0 -> "OutOfFuel"
+        | _ -> "Unmodelled" in
+      (match byte_session_x frames hl qs with
+       | (Ok0 l, answers) ->
+           let b = Buffer.create 256 in
+           Buffer.add_string b "S";
+           Buffer.add_string b (String.concat "," (List.map (fun r ->
+             dec_of_n r.br_a ^ "-" ^ dec_of_n r.br_b ^ "-" ^ desc r.br_body) l));
+           List.iter (fun r ->
+             Buffer.add_string b "|Q";
+             match r with
+             | Ok0 bodies -> Buffer.add_string b (String.concat "," (List.map desc bodies))
+             | e -> Buffer.add_string b (err e)) answers;
+           Some (Buffer.contents b)
+       | (e, _) -> Some (err e))
   | _ -> None
 
 let () = run_driver handle
